@@ -1,4 +1,4 @@
-import Rtsp.Proofs.UrlFlow
+import Rtsp.Proofs.UrlStyles
 /-
 Property C20 — URL fidelity: path, query and track resolution agree between client and server.
 
@@ -229,6 +229,131 @@ theorem no_credentials_on_wire (u : Url) (hs : IsScheme u.scheme)
     · simp [hq] at ha
     · simp [hq] at ha
 
+/-! ## what the client sends for each control-attribute style -/
+
+/-- **Relative control attributes** (`trackID=1`, `track1`, `streamid=0`, `video/1`, `/trackID=1`, …): the
+SETUP target is the credential-free base text, a `/` unless the base text ends in one or the control begins
+with one, and the control — plain concatenation, wherever that lands (path or query). -/
+theorem control_resolution_relative {b : Url} (h : WF b) {ctl : Str} (hp : ctl.all plainByte = true)
+    (hne : ctl ≠ []) (hna : isAbsoluteControl ctl = false) :
+    clientSetupTarget b ctl = some (b.withoutCredentials.toStr ++
+      (if ctl.head? != some 47 && !endsWithSlash b.toStr then [47] else []) ++ ctl) := by
+  have h63 : (ctl.head? != some 63) = true := by
+    cases ctl with
+    | nil => exact absurd rfl hne
+    | cons c r =>
+      have : plainByte c = true := by rw [List.all_cons, Bool.and_eq_true] at hp; exact hp.1
+      have hc : c ≠ 63 := by intro e; subst e; revert this; decide
+      simp [hc]
+  unfold clientSetupTarget mediaURL
+  simp only [hne, if_false, hna, Bool.false_eq_true, h63, Bool.true_and]
+  by_cases hsep : (ctl.head? != some 47 && !endsWithSlash b.toStr) = true
+  · simp only [hsep, if_true]
+    have ht : ([47] ++ ctl).all plainByte = true := by rw [List.all_append, hp]; decide
+    rw [List.append_assoc, parse_toStr_append h ht (by simp)]
+    simp only [requestTarget_some, extend_withoutCredentials]
+    rw [toStr_extend h.withoutCredentials ht (by simp)]
+    simp
+  · simp only [hsep, Bool.false_eq_true, if_false, List.append_nil]
+    rw [parse_toStr_append h hp hne]
+    simp only [requestTarget_some, extend_withoutCredentials]
+    rw [toStr_extend h.withoutCredentials hp hne]
+
+/-- **Query-style control attributes** (`?trackID=1`, `?ctype=video`) on a base without `?`: the target is the
+base text followed by the control, and a server reading it sees the base path and the control as query. -/
+theorem control_resolution_query_style {b : Url} (h : WF b) (hq : hasQ b = false) {x : Str}
+    (hx : x.all cleanByte = true) :
+    clientSetupTarget b (63 :: x) = some (b.withoutCredentials.toStr ++ 63 :: x) ∧
+    serverURL (b.withoutCredentials.toStr ++ 63 :: x) =
+      some { b.withoutCredentials with forceQuery := x.isEmpty, rawQuery := x } := by
+  have hna : isAbsoluteControl (63 :: x) = false := by
+    have h1 : pfxRTSP = 114 :: [116, 115, 112, 58, 47, 47] := by decide
+    have h2 : pfxRTSPS = 114 :: [116, 115, 112, 115, 58, 47, 47] := by decide
+    unfold isAbsoluteControl hasPrefix
+    rw [h1, h2]; simp [List.isPrefixOf]
+  have hw := h.withoutCredentials
+  have hqn : hasQ b.withoutCredentials = false := hq
+  constructor
+  · unfold clientSetupTarget mediaURL
+    have : ((63 : UInt8) :: x = []) = False := by simp
+    simp only [this, if_false, hna, Bool.false_eq_true, List.head?_cons, bne_self_eq_false, Bool.false_and]
+    rw [parse_toStr_append_qmark h hq hx]
+    simp only [requestTarget_some]
+    have hw2 : WF ({ b with forceQuery := x.isEmpty, rawQuery := x } : Url).withoutCredentials :=
+      { scheme := h.scheme, noOmit := rfl, auth := h.authNC, authNC := h.authNC, path := h.path,
+        query := hx, fq := by
+          intro hf
+          have hf' : x.isEmpty = true := hf
+          show x = []
+          simpa using hf' }
+    rw [toStr_wf hw2, toStr_wf hw]
+    have hq' : b.forceQuery = false ∧ b.rawQuery = [] := by unfold hasQ at hq; simpa using hq
+    unfold assemble queryText
+    simp only [Url.withoutCredentials, hq'.1, hq'.2, List.isEmpty_nil, Bool.not_true, Bool.or_self,
+      Bool.false_eq_true, if_false, List.append_nil]
+    have : (x.isEmpty || !x.isEmpty) = true := by cases x <;> rfl
+    simp [this]
+  · obtain ⟨r, hr⟩ := toStr_head hw
+    unfold serverURL
+    rw [if_neg (by rw [hr]; simp)]
+    exact parse_toStr_append_qmark hw hqn hx
+
+/-- **Absolute control attributes**: the target is the control's URL with the base's host, printed without
+credentials (whatever credentials the control or the base carry). -/
+theorem control_resolution_absolute (b : Url) {ctl : Str} {v : Url} (ha : isAbsoluteControl ctl = true)
+    (hv : parse ctl = some v) :
+    clientSetupTarget b ctl = some ({ v with host := b.host, user := none, omitHost := false } : Url).toStr := by
+  obtain ⟨hne, _⟩ := absolute_ne_star ha
+  unfold clientSetupTarget mediaURL
+  simp only [hne, if_false, ha, if_true, hv, requestTarget_some]
+  rfl
+
+/-! ## absolute control attributes -/
+
+/-- An absolute control attribute in canonical form whose authority is the server's. -/
+structure AbsControl (base : Url) (c : Str) : Prop where
+  abs : isAbsoluteControl c = true
+  canon : ∃ v, parse c = some v ∧ v.toStr = c ∧ v.user = none ∧ v.host = base.host ∧ v.omitHost = false
+
+/-- **Record with absolute control attributes** (foreign publishers): when the announced medias carry
+pairwise distinct absolute controls `rtsp://host/…` in canonical form with the server's authority, the
+SETUP target the client derives for media `i` is that control, and the server finds exactly media `i`
+(any number of medias, any announced path / query). -/
+theorem record_media_lookup_absolute (base : Url) (ctls : List Str) (hall : ∀ c ∈ ctls, AbsControl base c)
+    (hnd : ctls.Nodup) (p q : Str) {i : Nat} (hi : i < ctls.length) :
+    ∃ su, clientSetupTarget base ctls[i] = some ctls[i] ∧ serverURL ctls[i] = some su ∧
+      findMediaByURL ctls p q su = some i := by
+  obtain ⟨habs, v, hpv, hts, hvu, hvh, hvo⟩ := hall ctls[i] (List.getElem_mem hi)
+  obtain ⟨hne, hstar⟩ := absolute_ne_star habs
+  refine ⟨v, ?_, ?_, ?_⟩
+  · unfold clientSetupTarget mediaURL
+    simp only [hne, if_false, habs, if_true, hpv, requestTarget_some]
+    have : ({ v with host := base.host, user := base.user } : Url).withoutCredentials = v := by
+      obtain ⟨sch, usr, hst, pth, ep, fq, rq, oh⟩ := v
+      simp only at hvu hvh hvo
+      subst hvu hvh hvo
+      rfl
+    rw [this, hts]
+  · unfold serverURL; rw [if_neg hstar]; exact hpv
+  · unfold findMediaByURL
+    have hidx : ctls.findIdx (fun c => mediaMatches c p q v) = i := by
+      rw [List.findIdx_eq hi]
+      constructor
+      · unfold mediaMatches; simp [habs, hts]
+      · intro j hj
+        have hjl : j < ctls.length := by omega
+        obtain ⟨habsj, _⟩ := hall ctls[j] (List.getElem_mem hjl)
+        unfold mediaMatches
+        simp only [habsj, if_true, hts]
+        have : ctls[j] ≠ ctls[i] := nodup_getElem_ne hnd hi hjl hj
+        simp [this]
+    simp only [hidx, hi, if_true]
+
+/-- every well-formed URL value without user-info, printed, is such a control (non-vacuity of `AbsControl`) -/
+theorem absControl_of_wf {base v : Url} (h : WF v) (hu : v.user = none) (hh : v.host = base.host) :
+    AbsControl base v.toStr :=
+  ⟨isAbsolute_toStr h, v, parse_toStr h, rfl, hu, hh, h.noOmit⟩
+
 /-! ## whole sessions (`Model/UrlFlow.lean`) -/
 
 /-- **End to end, playing.**  For every in-scope URL, every stream size `n` and every order in which the
@@ -354,6 +479,31 @@ theorem recordFlow_fidelity {u : Url} (h : InScope u) (hq : u.forceQuery = false
     · subst he; exact ⟨rfl, by simp [Ev.medias, hinv.medias], by intro _; simp [Ev.medias, hinv.medias]⟩
     · subst he; exact ⟨rfl, by simp [Ev.medias, hinv.medias], by intro _; simp [Ev.medias, hinv.medias]⟩
 
+/-- every request line of a flow is the credential-free print of a URL value of the parser's shape -/
+theorem lineOK_no_credentials {l : String × Str} (h : LineOK l) :
+    ∀ a, targetAuthority l.2 = some a → (64 : UInt8) ∉ a := by
+  obtain ⟨v, hv, e⟩ := h
+  intro a ha
+  rw [e] at ha
+  have := no_credentials_on_wire v hv.scheme hv.epath hv.empty
+  rw [this.1 a ha]
+  exact this.2
+
+/-- **No credentials on the wire, end to end.**  For ANY input — any URL text (with or without user-info,
+well-formed or not), any media count and order, any `Content-Base` values, session-level and media-level
+control attributes a camera may send (relative, absolute, leading `?`, leading `/`, empty) — the authority
+of every request line the client writes in the play, record and camera sessions contains no `@`. -/
+theorem flows_no_credentials_on_wire :
+    (∀ (s : Str) (n : Nat) (order : List Nat) (auth pause : Bool), ∀ l ∈ (playFlow s n order auth pause).lines,
+        ∀ a, targetAuthority l.2 = some a → (64 : UInt8) ∉ a) ∧
+    (∀ (s : Str) (n : Nat) (order : List Nat) (auth pause : Bool), ∀ l ∈ (recordFlow s n order auth pause).lines,
+        ∀ a, targetAuthority l.2 = some a → (64 : UInt8) ∉ a) ∧
+    (∀ (s : Str) (cb : Option (List Str)) (sessCtl : Option Str) (controls : List Str),
+        ∀ l ∈ (camFlow s cb sessCtl controls).lines, ∀ a, targetAuthority l.2 = some a → (64 : UInt8) ∉ a) :=
+  ⟨fun s n order auth pause l hl => lineOK_no_credentials (playFlow_lines s n order auth pause l hl),
+   fun s n order auth pause l hl => lineOK_no_credentials (recordFlow_lines s n order auth pause l hl),
+   fun s cb sessCtl controls l hl => lineOK_no_credentials (camFlow_lines s cb sessCtl controls l hl)⟩
+
 /-! ## non-vacuity: concrete URL values inside the property's quantifier
 
 (`decide` here only evaluates the hypotheses on sample values — tests of satisfiability, not theorems.) -/
@@ -395,5 +545,10 @@ example : ∃ u, InScope u ∧ u.user.isSome = true ∧ hasQ u = true ∧ u.forc
 example : ∃ u, InScope u ∧ hasQ u = false ∧ u.epath ≠ u.path := ⟨ex2, ex2_inScope, by decide, by decide⟩
 example : IsScheme ex1.scheme ∧ (ex1.epath = [] ∨ ex1.epath.head? = some 47) ∧ (ex1.path = [] ↔ ex1.epath = []) :=
   ⟨Or.inl (by decide), Or.inr (by decide), by decide⟩
+
+example : AbsControl ex1 (extend ex1.withoutCredentials (trackTag ++ digits 0)).toStr :=
+  absControl_of_wf (ex1_inScope.withoutCredentials.wf.extend (tag_digits_plain 0) (tag_digits_ne 0)) rfl
+    (by unfold Rtsp.Url.extend; split <;> rfl)
+
 
 end Rtsp.Url
